@@ -113,6 +113,47 @@ def correspond(ctx):
                 ctx.tie_broken("correspondence", "sort_data_models model != code", json.dumps({"nodes": nodes, "code": real, "model": out}), hint=nodes)
     ctx.count("disagreements", bad)
     ctx.sample({"nodes": cases[-1], "code": real_sort(cases[-1])})
+    # keep_model_order pass (C11_bases_first is about its result): directed inheritance chains in both name
+    # orders - a chain whose names sort against the inheritance needs about k^2/2 passes - with unrelated
+    # models around them, the chain base possibly imported
+    from . import c14
+    kcases = []
+    for k in range(2, 9):
+        for down in (False, True):
+            for extra in (0, 1, 3):
+                for imp in (False, True):
+                    ids = list(range(10, 10 + k))
+                    ms = [(n, [n + 1] if down else [n - 1]) for n in ids]
+                    if down:
+                        ms[-1] = (ids[-1], [40] if imp else [])
+                    else:
+                        ms[0] = (ids[0], [40] if imp else [])
+                    ms += [(30 + j, []) for j in range(extra)]
+                    rng.shuffle(ms)
+                    kcases.append((ms, [40] if imp else []))
+    for _ in range(ctx.n(40, 600)):
+        # two chains interleaved by name
+        k = rng.choice([3, 4, 5, 6])
+        a, b = list(range(10, 10 + 2 * k, 2)), list(range(11, 11 + 2 * k, 2))
+        ms = []
+        for ch in (a, b):
+            down = rng.random() < 0.7
+            for i, n in enumerate(ch):
+                base = ch[i + 1] if down and i + 1 < len(ch) else ch[i - 1] if not down and i > 0 else None
+                ms.append((n, [base] if base else []))
+        rng.shuffle(ms)
+        kcases.append((ms, []))
+    reqs = ["korder\t" + (",".join(map(str, imp)) or "-") + "\t" + ";".join(f"{n}:{','.join(map(str, b))}" for n, b in ms) for ms, imp in kcases]
+    for (ms, imp), out in zip(kcases, drv.batch(reqs)):
+        ctx.count("eval_keep_order")
+        ctx.nontrivial("ko" + json.dumps(ms))
+        real = c14.real_sort(ms, imp, timeout=5.0)
+        model = None if out == "FUEL" else [int(x) for x in out.split(",")] if out else []
+        if real != model:
+            bad += 1
+            if bad <= 6:
+                ctx.tie_broken("correspondence", f"keep_model_order pass: code {real}, model {model}", json.dumps({"models": ms, "imported": imp}),
+                               hint={"chain": ms})
 
 
 # ---------------------------------------------------------------------------------------------
@@ -230,6 +271,27 @@ def falsify(ctx):
     for _ in range(ctx.n(120, 2500)):
         cases.append(rand_graph(rng, n=rng.choice([2, 3, 4, 5, 6]), acyclic_bases=True))
     seen = 0
+    # inheritance chains whose names sort against (and along) the inheritance, under keep_model_order
+    chains = [h["chain"] for h in ctx.hints if isinstance(h, dict) and "chain" in h][:4]
+    for k in ctx.n([4, 5, 7], [2, 3, 4, 5, 6, 7, 8, 9]):
+        for down in (True, False):
+            for extra in (0, 2):
+                ids = list(range(1, k + 1))
+                ch = [(n, [n + 1] if down and n < k else [n - 1] if not down and n > 1 else []) for n in ids]
+                chains.append(ch + [(20 + j, []) for j in range(extra)])
+    for ch in chains:
+        nodes = [(n, [b for b in bs if b < 40], []) for n, bs in ch]
+        for kind in ("pydantic_v2.BaseModel", "dataclasses.dataclass", "typing.TypedDict"):
+            opts = {"keep_model_order": True}
+            ctx.count("eval_e2e")
+            ctx.count("chain_cases")
+            ctx.nontrivial(enc_nodes(nodes) + kind + "chain")
+            why = check_graph(nodes, kind, opts)
+            if why:
+                seen += 1
+                if seen <= 6:
+                    ctx.violation(f"e2e:{enc_nodes(nodes)}:[]:{kind}:{sorted(opts)}", f"graph {enc_nodes(nodes)} ({kind}, {opts}): {why}",
+                                  {"nodes": nodes, "twins": [], "kind": kind, "opts": opts, "why": why})
     for i, nodes in enumerate(cases):
         nodes = [(p, [b for b in bs if b in {q for q, _, _ in nodes}], [r for r in rs if r in {q for q, _, _ in nodes}]) for p, bs, rs in nodes]
         if has_base_cycle(nodes):
